@@ -88,6 +88,7 @@ type ModelVar struct{ Name, Term, Sort string }
 
 // FnCtx: verification of one top-level function.
 type FnCtx struct {
+	useN int // number of explicit lemma applications so far
 	W    *World
 	B    *SMT
 	Top  *ssa.Function
